@@ -61,10 +61,12 @@ func (w *World) verifyFunc(fn *ssa.Function, ct *Contract, mode execMode) *FuncR
 			}
 		}()
 		args := make([]Val, len(fn.Params))
+		ex.inputTerms = map[string]string{}
 		for i, p := range fn.Params {
 			v := st.freshVal("p_"+p.Name(), p.Type())
 			args[i] = v
 			ex.entryVals[p.Name()] = v
+			ex.recordInputs(st, p.Name(), v)
 		}
 		var binds []Val
 		for _, fv := range fn.FreeVars {
@@ -84,6 +86,18 @@ func (w *World) verifyFunc(fn *ssa.Function, ct *Contract, mode execMode) *FuncR
 			}
 		}
 		ex.entryHeap = st.snapshotHeap()
+		if ct != nil {
+			// ghost code at entry (after the pre-state snapshot, so old() sees the values before)
+			e := &env{vars: map[string]Val{}}
+			for _, ga := range ct.ghostSet {
+				sort, ok := w.ghostVars[ga.name]
+				if !ok {
+					panic(subsetErr{"contract-binding: undeclared ghost variable " + ga.name})
+				}
+				v := ex.eval(st, ga.expr, e)
+				st.setRegion("G!"+ga.name, sort, ex.asTerm(v))
+			}
+		}
 		fr := ex.pushFrame(st, fn, args, binds, func(st *State, r Val) { ex.atExit(st, r) })
 		fr.isRoot = true
 		ex.run(st, fn.Blocks[0], 0)
@@ -137,8 +151,7 @@ func (ex *Exec) atExit(st *State, res Val) {
 	e := &env{vars: map[string]Val{}, result: &res}
 	ex.bindNamedResults(ex.root, e, res)
 	for _, en := range ct.ensures {
-		g := ex.evalBool(st, en.expr, e)
-		ex.record(st, ex.rootName+"/ensures:"+en.label, "ensures", g, en.src)
+		ex.proveEnsures(st, en, e)
 	}
 	if ct.hasMod {
 		ex.frameCheck(st, ct, e)
@@ -235,5 +248,33 @@ func (ex *Exec) initGhost(st *State) {
 	}
 	for name, sort := range ex.w.ghostVars {
 		st.region("G!"+name, sort)
+	}
+}
+
+// recordInputs remembers the terms whose model values describe the function's inputs.
+func (ex *Exec) recordInputs(st *State, name string, v Val) {
+	switch v.K {
+	case KTerm:
+		ex.inputTerms[name] = v.T
+		if v.Typ == nil {
+			return
+		}
+		if pt, ok := v.Typ.Underlying().(*types.Pointer); ok && isStructT(pt.Elem()) {
+			func() {
+				defer func() { recover() }()
+				for _, lf := range leaves(pt.Elem()) {
+					if lf.sort == "String" || lf.sort == "Int" || lf.sort == "Bool" {
+						ex.inputTerms[name+"."+lf.path] = st.readLeaf(pt.Elem(), lf.path, lf.sort, v.T)
+					}
+				}
+			}()
+		}
+	case KStruct:
+		s := v.Typ.Underlying().(*types.Struct)
+		for i, f := range v.Fs {
+			ex.recordInputs(st, name+"."+s.Field(i).Name(), f)
+		}
+	case KSlice:
+		ex.inputTerms[name+".#len"] = v.Fs[2].T
 	}
 }
